@@ -270,13 +270,12 @@ Definition copytree (f : fs) (a b : path) : fres fs :=
   | None => FErr ENOENT
   | Some (File _) => FErr ENOTDIR
   | Some Dir =>
-      if under a b then FErr EINVAL
-      else
-        match makedirs_new f b with
-        | FErr e => FErr e
-        | FOk f1 =>
-            FOk (move_tree a b (filter (fun e => below a (fst e)) f) ++ f1)
-        end
+      match makedirs_new f b with          (* an existing destination (also the source itself) fails first *)
+      | FErr e => FErr e
+      | FOk f1 =>
+          if under a b then FErr EINVAL
+          else FOk (move_tree a b (filter (fun e => below a (fst e)) f) ++ f1)
+      end
   end.
 
 Definition listdir (f : fs) (p : path) : fres (list str) :=
@@ -839,7 +838,7 @@ Lemma copytree_exists : forall f a p n x,
   get f (p ++ [n]) = Some x ->
   copytree f a (p ++ [n]) = FErr EEXIST.
 Proof.
-  intros f a p n x Ha Hu Hd Hx. unfold copytree. rewrite Ha, Hu. unfold makedirs_new.
+  intros f a p n x Ha Hu Hd Hx. unfold copytree. rewrite Ha. unfold makedirs_new.
   rewrite (makedirs_from_exists p f [] n x); auto. intros k Hk. simpl. apply Hd. lia.
 Qed.
 
@@ -872,10 +871,10 @@ Lemma get_copytree : forall f a p n f' q,
     end.
 Proof.
   intros f a p n f' q Ha Hu1 Hu2 Hd Hn H. set (b := p ++ [n]) in *.
-  unfold copytree in H. rewrite Ha, Hu1 in H. unfold makedirs_new in H. fold b in H.
+  unfold copytree in H. rewrite Ha in H. unfold makedirs_new in H. fold b in H.
   assert (Hmk : makedirs_from false f [] b = FOk ((b, Dir) :: f)).
   { unfold b. apply (makedirs_from_leaf_new p f [] n); auto. intros k Hk. simpl. apply Hd. lia. }
-  rewrite Hmk in H. inversion H; subst f'. clear H.
+  rewrite Hmk, Hu1 in H. inversion H; subst f'. clear H.
   assert (Hb0 : b <> []) by (unfold b; destruct p; discriminate).
   set (g := filter (fun e => below a (fst e)) f).
   assert (Hg : forall k, In k (map fst g) -> under a k = true /\ under b k = false).
